@@ -554,6 +554,15 @@ def stepC14 (op obs : String) : String :=
       let m := hx (f (bitsToBytesPadR bits))
       if obs == m then "OK" else s!"PROPFAIL digest-differs-from-reference ;DIVERGE model={m}"
     | _, _ => "BADOP hash"
+  | [codec, "prt", input, _cuts] =>
+    -- to_F, cut the bytes into an array binary anywhere, from_F: the property statement is the identity on the
+    -- string (Props.C14 *_roundtrip: dec (enc s) = s; the cuts do not enter — a binary is its bit string)
+    (match txtCodec codec with
+     | none => "BADOP codec"
+     | some _ =>
+       if obs == input then "OK"
+       else if obs == "err" then "PROPFAIL pieces-roundtrip from(pieces(to(s)))=err"
+       else s!"PROPFAIL pieces-roundtrip from(pieces(to(s))) differs from s: got {(obs.take 80).toString}")
   | [codec, "lrt", a, b, c, d] => stepLarge codec [a, b, c, d] obs
   | [h, "lhash", a, b, c, d] => stepLargeHash h [a, b, c, d] obs
   | [codec, "rt", input] =>
